@@ -53,14 +53,16 @@ Definition extract_int (ty : ctype) (z : Z) : presZ :=
   | TStep => if (- two63 <=? z) && (z <? two63) then ZVal z else ZFail
   end.
 
-(* _get_keyval_scalar_value_ counts successful extractions: "1e300" read as an integer is 1 followed by a
-   failed extraction of "e300" -> accepted as 1; "0.5" is accepted as 0; "nan" gives no extraction -> error. *)
+(* _get_keyval_scalar_value_ reads values until the end of the text and any text that is not a value is an error
+   (repaired by "fix: text after the value of a scalar keyword was silently ignored"): "1e300" read as an integer
+   is 1 followed by the unreadable "e300" -> error; likewise "0.5"; "nan" -> error.  (Before that repair the
+   extractions were counted and "1e300" was accepted as 1, "0.5" as 0.) *)
 Definition parse_int (ty : ctype) (t : option tok) : presZ :=
   match t with
   | None => ZAbsent
   | Some (TokInt z) => extract_int ty z
-  | Some (TokSci m _) => extract_int ty m
-  | Some (TokFrac ip _ _) => extract_int ty ip
+  | Some (TokSci _ _) => ZFail
+  | Some (TokFrac _ _ _) => ZFail
   | Some TokWord => ZFail
   end.
 
@@ -150,21 +152,23 @@ Definition colvar_init (restart_out_freq : Z) (c : cvconf) : initres cvstate :=
   let '(tsf, e1) := getZ (parse_int TInt (c_tsf c)) 1 1 in
   if tsf <? 0 then mkRes (mkCv tsf false 0 0 false 0 0 0) true []          (* error + return *)
   else
-    (* parse_analysis: runave_length = 0; if runAve ... *)
-    let '(ralen, rastride, e2, u2) :=
+    (* parse_analysis: if runAve ... ; a zero stride is an error + return (nothing after it is parsed) *)
+    let '(ralen, rastride, e2, u2, ret2) :=
       if c_runave c then
         let '(l, el) := getZ (parse_int TSize (c_ralen c)) (c_u_ralen c) 1000 in
         let '(s, es) := getZ (parse_int TSize (c_rastride c)) (c_u_rastride c) 1 in
-        if s =? 0 then (l, s, true, [])       (* repaired: "runAveStride must be positive"; no modulo *)
+        if s =? 0 then (l, s, true, [], true)       (* "runAveStride must be a positive integer": return *)
         else (l, s, el || es || negb (restart_out_freq mod s =? 0),
-              [mkUse "parse_analysis: restart_out_freq % runave_stride" (nz s)])
-      else (0, c_u_rastride c, false, []) in
+              [mkUse "parse_analysis: restart_out_freq % runave_stride" (nz s)], false)
+      else (0, c_u_rastride c, false, [], false) in
+    if ret2 then mkRes (mkCv tsf (c_runave c) ralen rastride false 0 (c_u_cfstride c) (c_u_cfoff c)) true u2
+    else
     let '(cflen, cfstride, cfoff, e3, u3) :=
       if c_corr c then
         let '(o, eo) := getZ (parse_int TSize (c_cfoff c)) (c_u_cfoff c) 0 in
         let '(l, el) := getZ (parse_int TSize (c_cflen c)) (c_u_cflen c) 1000 in
         let '(s, es) := getZ (parse_int TSize (c_cfstride c)) (c_u_cfstride c) 1 in
-        if s =? 0 then (l, s, o, true, [])    (* repaired: "corrFuncStride must be positive" *)
+        if s =? 0 then (l, s, o, true, [])    (* "corrFuncStride must be a positive integer": return *)
         else (l, s, o, eo || el || es || negb (restart_out_freq mod s =? 0),
               [mkUse "parse_analysis: restart_out_freq % acf_stride" (nz s)])
       else (0, c_u_cfstride c, c_u_cfoff c, false, []) in
@@ -418,8 +422,7 @@ Definition histrestr_init (host_bytes : Z) (c : hrconf) : initres Z :=
   let '(lo, e1) := getQ (parse_real (h_lower c)) 0 0 in
   let '(up, e2) := getQ (parse_real (h_upper c)) 0 0 in
   let '(w, e3) := getQ (parse_real (h_width c)) 0 0 in
-  if Qle_bool w 0 then mkRes 0 true []
-  else if Qle_bool up lo then mkRes 0 true []
+  if Qle_bool w 0 || Qle_bool up lo then mkRes 0 true []       (* both flagged, then return *)
   else if Qle_bool (int_max # 1) ((up - lo) / w) then mkRes 0 true []
   else
     let n := cast_int ((up - lo) / w) in
